@@ -351,7 +351,27 @@ func (m Mix) next(g *sim.G) *sim.Op {
 	if m.AttProbe > 0 && g.Pct("attprobe", m.AttProbe) {
 		// the attester manager enables or disables an entry (under whatever spelling it has), then
 		// submissions attested by the set as that change leaves it
-		if g.Bool("ap/compound") {
+		kind := g.Int("ap/kind", 0, 3)
+		if kind == 3 {
+			// twins: one key enabled under two spellings (two registry entries), one of them disabled;
+			// the other entry must stay, and its signature keeps counting
+			ks := g.W.EnabledKeys()
+			x := attest.K(g.Int("ap/tk", 0, sim.NKeys-1))
+			a := g.Int("ap/ta", 0, 5)
+			b := (a + 1 + g.Int("ap/tb", 0, 4)) % 6
+			mgr := g.W.Model.Roles[1]
+			ops := []*sim.Op{
+				sim.TxOp("admin:EnableAttester", &types.MsgEnableAttester{From: mgr, Attester: x.Spelling(a)}),
+				sim.TxOp("admin:EnableAttester", &types.MsgEnableAttester{From: mgr, Attester: x.Spelling(b)}),
+				sim.TxOp("admin:DisableAttester", &types.MsgDisableAttester{From: mgr, Attester: x.Spelling(a)}),
+			}
+			_ = ks
+			// a receive signed by x and as many others as the threshold needs
+			ops = append(ops, followUps(g, "ap/twinuse", &types.MsgEnableAttester{From: mgr, Attester: x.Spelling(b)})...)
+			queueOps(g, ops[1:]...)
+			return ops[0]
+		}
+		if kind >= 1 {
 			// a key that is not enabled is enabled under some spelling, used, disabled under that very spelling, used again
 			ks := g.W.EnabledKeys()
 			var x *attest.Key
@@ -785,7 +805,7 @@ func staleAttestationProbe(g *sim.G, label string) []*sim.Op {
 }
 
 var C03 = register(&HistProp{ID: "C03",
-	Genesis: func(t *rapid.T) *sim.GenSpec { return sim.DrawGenesis(t, sim.GenOpts{UsedInGen: true, Decoys: true}) },
+	Genesis: func(t *rapid.T) *sim.GenSpec { return sim.DrawGenesis(t, sim.GenOpts{UsedInGen: true, Decoys: true, AbsentOpt: true}) },
 	Next: func(g *sim.G, i int) *sim.Op {
 		if op := queuedOp(g); op != nil {
 			return op
@@ -855,7 +875,7 @@ func c08extra(c *strict, w *sim.World, s *sim.Step) *Viol {
 }
 
 var C08 = register(&HistProp{ID: "C08",
-	Genesis: func(t *rapid.T) *sim.GenSpec { return sim.DrawGenesis(t, sim.GenOpts{BigBalances: true, MixedDenom: true}) },
+	Genesis: func(t *rapid.T) *sim.GenSpec { return sim.DrawGenesis(t, sim.GenOpts{BigBalances: true, MixedDenom: true, AbsentOpt: true, CaseLimits: true}) },
 	Next: func(g *sim.G, i int) *sim.Op {
 		return Mix{Dep: 14, Admin: 5, Ledger: 2, DepValid: 45, AdminHolder: 92, FaultPct: 6, Rollback: 5,
 			AdminTypes: []string{"SetMaxBurnAmountPerMessage", "SetMaxBurnAmountPerMessage", "UpdateMaxMessageBodySize", "AddRemoteTokenMessenger", "RemoveRemoteTokenMessenger",
